@@ -207,6 +207,9 @@ pub enum VarKind {
 
 #[derive(Clone, Debug, PartialEq, Eq, Hash)]
 pub struct StructDef {
+    /// for an instantiation of a hand-written generic definition: the generic's base name
+    /// (the definition itself is emitted once from `gen::GENERIC_SRC`)
+    pub generic_of: Option<String>,
     pub name: String,
     pub tuple: bool,
     pub fields: Vec<Ty>,
@@ -223,6 +226,7 @@ pub struct Variant {
 
 #[derive(Clone, Debug, PartialEq, Eq, Hash)]
 pub struct EnumDef {
+    pub generic_of: Option<String>,
     pub name: String,
     pub tag: TagTy,
     pub variants: Vec<Variant>,
@@ -277,7 +281,9 @@ impl Ty {
     /// `FlatDefault` is implemented (so `default_in_place` exists).
     pub fn has_default(&self) -> bool {
         match self {
-            Ty::Array(t, n) => *n <= 32 && t.has_default() && t.is_sized(),
+            // arrays are `FlatDefault` in the library (for N <= 32), but the glue cannot name that bound
+            // for a generic N, so no default route exists for them as top-level shapes / FlexVec items
+            Ty::Array(..) => false,
             Ty::Struct(s) => s.default,
             Ty::Enum(e) => e.default.is_some(),
             _ => true,
